@@ -243,3 +243,18 @@ reg('C16',
     'prepared reaction collections (reactions/, retro/) are exercised only through the Reactor class they are built on.',
     'bounded exhaustive enumeration of templates x molecules x matches on the real implementation vs an independent edit model',
     'DESIGN.md s5 C16')
+
+reg('C11',
+    'Records are enumerated and pushed through every writer/reader pair {SDF V2000, SDF V3000, RDF, RDF V3000, MRV} with atom mapping on and off: '
+    'Kekule molecules of D(<=4,1), charge -4..+4 (alone and next to other charged atoms), every 5th (thorough: every) element x tabulated isotopes, '
+    'radicals, bond orders 1,2,3,4,8, atom numbers up to 999, stereo molecules with an RDKit 2D layout (tetrahedral, allene, cis/trans); reactions with '
+    '{0,1,2}^3 molecules per role and stereo molecules in every role, several records per file. Compared field by field: atom order and numbers, element, '
+    'isotope, charge, radical, bond orders, configuration (signs relative to ascending neighbours), roles, titles, metadata. Titles, metadata keys and '
+    'values: every string of length <=3 over {a, blank, <, >, &, $, newline, -}. Damaged files: 4-record SDF and V3000 files with every line deletion '
+    'and every field corruption at every position - all untouched records must be returned in order and nothing may escape the iteration. Random access: '
+    'indexable files on disk, every index, negative indices and slices equal sequential reading. Other programs: RDKit-written V2000/V3000 blocks of the '
+    'corpus stride and every file under /repo/test are read without an exception leaving the iteration.',
+    'Metadata values are compared modulo the reader normalisation (each line stripped, empty lines dropped); delimiter-looking lines, outer blanks in '
+    'keys/titles are counted as out of domain; explicit hydrogens on stereocentres are excluded (property text). Cis/trans from 2D needs calc_cis_trans=True, which the check passes.',
+    'bounded exhaustive enumeration of records x formats x field values x corruption positions on the real implementation',
+    'DESIGN.md s5 C11')
